@@ -44,6 +44,11 @@ func init() {
 		if def == nil {
 			return false, "", fmt.Errorf("unknown variant %q", r.Variant)
 		}
+		if r.Cfg.FileDir != "" {
+			dir, cleanup := core.Scratch("replay")
+			defer cleanup()
+			r.Cfg.FileDir = dir
+		}
 		sp := def(r.Cfg)
 		mons := sp.mons()
 		rule, what, _, w, err := sessmc.ReplayNamesWorld(r.Cfg, sp.prefix, sp.alphabet, mons, r.Names)
